@@ -29,6 +29,7 @@ ALL = {
     'C05': 'p_c05',
     'C06': 'p_c06',
     'C07': 'p_c07',
+    'C08': 'p_c08',
     'C09': 'p_c09',
     'C10': 'p_c10',
 }
